@@ -131,6 +131,9 @@ type Config struct {
 	MaxBlockSizeMB int
 	// NewAccountGas
 	NewAccountGas int64
+	// award decay: the award is multiplied by DecayRatio every DecayGap heights (0: no decay)
+	DecayGap   int64
+	DecayRatio string
 }
 
 // DefaultConfig gives A 1000 and B 500, award 100, no window.
@@ -156,13 +159,17 @@ func (c Config) GenesisJSON() []byte {
 	if mbs == 0 {
 		mbs = 16
 	}
+	gap, ratio := int64(31536000), "1"
+	if c.DecayGap > 0 {
+		gap, ratio = c.DecayGap, c.DecayRatio
+	}
 	return []byte(fmt.Sprintf(`{"version":"1","predistribution":[%s],"maxblocksize":"%d","award":"%s","decimals":"8","nofee":%v,
-"award_decay":{"height_gap":31536000,"ratio":1},
+"award_decay":{"height_gap":%d,"ratio":%s},
 "gas_price":{"cpu_rate":1000,"mem_rate":1000000,"disk_rate":1,"xfee_rate":1},
 "new_account_resource_amount":%d,
 "irreversibleslidewindow":"%d",
 "genesis_consensus":{"name":"single","config":{"miner":"%s","period":3000}}}`,
-		pre, mbs, c.Award, c.NoFee, c.NewAccountGas, c.Window, Addr("M")))
+		pre, mbs, c.Award, c.NoFee, gap, ratio, c.NewAccountGas, c.Window, Addr("M")))
 }
 
 // World is one node: ledger + state + managers over one vkv space.
